@@ -56,6 +56,9 @@ pub fn run(env: &Env, run: &Run) -> (Stats, Coverage) {
         v
     };
     st.merge(run_family(&fam, |s, st| visit(env, s, st)));
+    st.merge(cpsweep_sequential(|c, st| {
+        visit(env, &from_cps(&[0x61, c as u32, 0x62]), st);
+    }));
     // conformance for every length: the Nickname space rule is a sequential (Mealy) function
     // f(w.a) = f(w).out(state, a) with three states; its complete W-method suite (prefix-closed,
     // so that per-character outputs are observed) is run with m extra states allowed
@@ -102,7 +105,7 @@ pub fn run(env: &Env, run: &Run) -> (Stats, Coverage) {
     st.sample(json!({"rule": "Nickname additional mapping", "input": ["U+00E9", " ", " ", "b", "U+3000"], "expected": "U+00E9 ' ' b"}));
     st.sample(json!({"rule": "OpaqueString additional mapping", "input": [" ", "U+00A0", "a", " "], "expected": "' ' ' ' a ' ' (only the non-ASCII space is replaced; nothing is trimmed)"}));
     let cov = Coverage {
-        rule: format!("every string of length <= {} over {{U+0020, Zs of 2 and 3 bytes, letters of 1-4 bytes}} + pumped runs and ASCII block strings + every scalar value in 7 templates and next to each of its bit-16..20 aliases through additional_mapping_rule of Nickname and OpaqueString; oracle = map Zs (gc of the profile crate's UnicodeData) to U+0020, split on U+0020, drop empty tokens, join with one U+0020 (Nickname) / map non-ASCII Zs only (OpaqueString); idempotence on the output; non-trivial = a space needing action stands behind a multi-byte character", n),
+        rule: format!("every string of length <= {} over {{U+0020, Zs of 2 and 3 bytes, letters of 1-4 bytes}} + pumped runs and ASCII block strings + every scalar value in 7 templates and next to each of its 16 other-plane aliases through additional_mapping_rule of Nickname and OpaqueString; oracle = map Zs (gc of the profile crate's UnicodeData) to U+0020, split on U+0020, drop empty tokens, join with one U+0020 (Nickname) / map non-ASCII Zs only (OpaqueString); idempotence on the output; non-trivial = a space needing action stands behind a multi-byte character", n),
         alphabet: json!(sigma.iter().map(|c| format!("U+{:04X}", *c as u32)).collect::<Vec<_>>()),
         bound_completed: format!("length <= {} ({} strings) x 2 rules; sweep 1,112,064 x 7 templates x 2", n, tree_size(sigma.len(), n)),
         exhaustive: false,
